@@ -29,7 +29,8 @@ NVals   == 3           \* values are 0..NVals-1 ; 0 is the empty byte string
 
 VARIABLES
   prog,       \* [Keys -> rule description record]  (fixed per engine instance)
-  ext,        \* [Leaves -> value]  external state read by leaf rules
+  ext,        \* [Keys -> value]  external state: the value of a leaf key, and for a derived rule with an
+              \*                  output cell (prog[k].out) the "file" its task last wrote
   mem,        \* [Keys -> Result]   the engine's in-memory results
   st,         \* [Keys -> state in the current build]
   chk,        \* [Keys -> "no" | "valid" | "invalid"]  outcome of isResultValid in this scan
@@ -78,6 +79,9 @@ ToSetOf(s) == {s[i] : i \in 1..Len(s)}
 (*   disc  : Seq(leaf key)    discovered dependencies (read directly)        *)
 (*   proj  : Seq(key)         inputs that influence the value                *)
 (*   base, force, valid, sig                                                 *)
+(*   out   : the task writes its value to the external cell ext[k] while it  *)
+(*           computes, and the stored result is valid only if the cell still *)
+(*           holds that value (a command and its output file)                *)
 
 StartReqs(r) == IF IsLeaf(r) THEN <<>> ELSE prog[r].start
 DynReqs(r, k, v) ==
@@ -100,7 +104,8 @@ ComputeVal(r, reqs, got) ==
   IF IsLeaf(r) THEN ext[r]
   ELSE (prog[r].base + SumGot(reqs, got, ToSetOf(prog[r].proj)) + SumExt(prog[r].disc)) % NVals
 
-ValidNow(r, v) == IF IsLeaf(r) THEN v = ext[r] ELSE prog[r].valid
+HasOut(r) == ~IsLeaf(r) /\ prog[r].out
+ValidNow(r, v) == IF IsLeaf(r) THEN v = ext[r] ELSE prog[r].valid /\ (prog[r].out => ext[r] = v)
 
 (* The clean-build oracle: the value a brand-new engine computes. *)
 RECURSIVE Clean(_), CleanRun(_,_,_,_)
@@ -188,8 +193,7 @@ GhostKeep  == <<runs, quiet>>
 (* Actions between builds *)
 
 Mutate(x, v) ==
-  /\ alive /\ ~Running /\ x \in Leaves
-  /\ ext[x] # v
+  /\ alive /\ ~Running /\ (x \in Leaves \/ HasOut(x))
   /\ ext' = [ext EXCEPT ![x] = v]
   /\ quiet' = NotQuiet
   /\ last' = NoLast
@@ -235,6 +239,19 @@ Crash ==
   /\ quiet' = NotQuiet
   /\ last' = [a |-> "Crash"]
   /\ UNCHANGED <<prog, ext, mem, epoch, hasdb, db, runs>>
+
+(* The process dies inside buildComplete(): the commit may or may not have reached the disk. *)
+CrashAfterCommit ==
+  /\ alive /\ Running /\ hasdb /\ txn.open /\ focus.what = "return"
+  /\ alive' = FALSE
+  /\ db' = [ver |-> txn.ver, epoch |-> txn.epoch, rows |-> txn.rows]
+  /\ txn' = NoTxn
+  /\ target' = None /\ draining' = FALSE /\ focus' = NoFocus /\ cancelled' = "no"
+  /\ st' = [k \in Keys |-> "idle"] /\ chk' = [k \in Keys |-> "no"] /\ task' = [k \in Keys |-> NoTask]
+  /\ ran' = {} /\ cyc' = FALSE /\ intr' = {}
+  /\ quiet' = NotQuiet
+  /\ last' = [a |-> "Crash"]
+  /\ UNCHANGED <<prog, ext, mem, epoch, hasdb, runs>>
 
 -----------------------------------------------------------------------------
 (* A build *)
@@ -402,7 +419,8 @@ Complete(r, v, f) ==
                                ELSE [@ EXCEPT !.sig = SigOf(r), !.value = v, !.computed = epoch]]
   /\ st' = [st EXCEPT ![r] = "reported"]
   /\ last' = NoLast
-  /\ UNCHANGED <<prog, ext, chk, task, epoch, target, cancelled, draining, focus, ran, cyc, intr,
+  /\ ext' = IF HasOut(r) THEN [ext EXCEPT ![r] = v] ELSE ext          \* the task's side effect
+  /\ UNCHANGED <<prog, chk, task, epoch, target, cancelled, draining, focus, ran, cyc, intr,
                  hasdb, db, txn, alive, runs, quiet>>
 
 (* Rule::updateStatus(IsComplete) *)
